@@ -132,7 +132,7 @@ MANIFEST_TEXT = {
  "C01": mt("seeded search over publish/consume/fault histories, schedules and queue configurations against the real nsqd; oracle: ledger conservation (every acknowledged publish is finished on every channel that existed, or still owed) plus bounded-liveness drain once faults stop. Sampling, not proof.", "DESIGN.md 3 C01", "deterministic simulation: ledger conservation + drain liveness"),
  "C02": mt("seeded search with contention, late/wrong/duplicate answers and clock advances at deadlines; oracle: per (channel,message) history automaton (attempts sequence, exclusive holder via REQ/timeout arithmetic on the fake clock, FIN final, non-holder answers refused non-fatally).", "DESIGN.md 3 C02", "deterministic simulation: per-message ownership automaton"),
  "C03": mt("seeded search over RDY/CLS/pause/unpause histories with competing consumers; oracle: per-connection model of RDY vs. certainly-unexpired outstanding messages, nothing after CLS/pause acknowledged, RDY range fatal.", "DESIGN.md 3 C03", "deterministic simulation: per-connection flow-control model"),
- "C04": mt("seeded search over timeout/delay values and spellings with exact fake-clock arithmetic: never-early for timeouts (with TOUCH cap), REQ delays (clamped) and in-memory deferred publishes; out-of-range/overflowing spellings rejected or clamped.", "DESIGN.md 3 C04", "deterministic simulation: fake-clock timing oracle + spelling table"),
+ "C04": mt("seeded search over timeout/delay values and spellings with exact fake-clock arithmetic: never-early for timeouts (with TOUCH cap), REQ delays (clamped) and in-memory deferred publishes; boundedly late (redelivery within max-msg-timeout + scan slack; no channel holds more in flight than it handed out within that window); out-of-range/overflowing spellings rejected or clamped.", "DESIGN.md 3 C04", "deterministic simulation: fake-clock timing oracle + spelling table"),
  "C05": mt("seeded search over histories with graceful Exit (also inside bursts) and restart on the same data path, up to 3 cycles; oracle: registry and paused flags survive, every acknowledged unfinished message is delivered again with continuing attempts, finished ones never reappear.", "DESIGN.md 3 C05", "deterministic simulation: ledger across daemon lifetimes"),
  "C07": mt("seeded search over adversarial bodies x publish path x queue path x negotiated TLS/snappy/deflate/buffer settings with short reads; oracle: byte equality by unique body, id format, id/timestamp stable across redeliveries and channels, timestamp within publish interval.", "DESIGN.md 3 C07", "deterministic simulation: byte-exact content/envelope oracle"),
  "C08": mt("seeded search with delete/empty/pause/create issued concurrently (bursts, seeded yields) with publishes, deliveries, FIN/REQ/TOUCH and timeouts on durable and ephemeral objects; oracle: no daemon panic/hang, registry and data-dir state after acknowledged operations, discarded backlog never delivered, counters non-negative.", "DESIGN.md 3 C08", "deterministic simulation: crash/hang detection + post-operation state model"),
@@ -144,7 +144,7 @@ MANIFEST_TEXT["C14"] = mt("seeded search over producer/admin histories and clock
 MANIFEST_TEXT["C15"] = mt("seeded search over hostile TCP byte streams and HTTP requests against the real nsqlookupd with bystander producers; oracle: process stays up (a panic is attributed through the write-ahead seed log), keeps answering, bystander registrations intact, documented error codes, no HTTP 5xx.", "DESIGN.md 3 C15", "deterministic simulation: hostile-input robustness with bystander oracle")
 
 MANIFEST_TEXT["C09"] = mt("seeded search over generated V2 command streams, connection states and boundary values against the real nsqd with a bystander; oracle: executable reference of the documented protocol (code, fatality, closure per command and state) plus side-effect check through /stats (rejected PUB/DPUB enqueue nothing, MPUB all-or-nothing) and bystander round trips. Largely input-driven; the simulator adds short reads, resets at arbitrary points, the fake clock and replay.", "DESIGN.md 3 C09", "deterministic simulation: protocol reference table + side-effect oracle")
-MANIFEST_TEXT["C10"] = mt("seeded search over generated HTTP requests against the real nsqd; oracle: reference table of admissible status codes (never 5xx), registry/counter model compared with /stats after every request, and HTTP-vs-TCP twin publishes whose acceptance and consumed multisets must agree.", "DESIGN.md 3 C10", "deterministic simulation: status reference + HTTP/TCP twin equivalence")
+MANIFEST_TEXT["C10"] = mt("seeded search over generated HTTP requests against the real nsqd; oracle: reference table of admissible status codes (never 5xx), registry/counter model compared with /stats after every request, the list-valued run-time option read back after every PUT, and HTTP-vs-TCP twin publishes whose acceptance and consumed multisets must agree.", "DESIGN.md 3 C10", "deterministic simulation: status reference + HTTP/TCP twin equivalence")
 
 MANIFEST_TEXT["C06"] = mt("fault enumeration: every simos hook boundary of every metadata write in every generated history is a SIGKILL point (plus acknowledgements and idle points); at each the file must be absent or a complete document, and a fresh nsqd on that snapshot must load and show a registry state the original passed through since the last idle point, with acknowledged pauses reflected; write-fault injection keeps the previous file; a second instance on a data path in use is refused. Histories are sampled by seed; kill points within a history are enumerated exhaustively.", "DESIGN.md 3 C06", "deterministic simulation: kill-point enumeration over simos hooks + restart comparison")
 
